@@ -411,11 +411,11 @@ def static_checks(tier, vseed):
 CFG_Q = ("asm",)
 CFG_T = ("asm", "asm:base", "p64", "p32")
 SUBCHECKS = [
-    Sub("fq_binop", binop_cases("fq"), check_binop, 60000, 1500000, CFG_Q, CFG_T),
-    Sub("fr_binop", binop_cases("fr"), check_binop, 40000, 800000, CFG_Q, CFG_T),
-    Sub("fq_mred", mred_cases("fq"), check_mred, 20000, 400000, CFG_Q, CFG_T),
-    Sub("fr_mred", mred_cases("fr"), check_mred, 10000, 200000, CFG_Q, CFG_T),
-    Sub("fq_unary", unary_cases("fq"), check_unary, 16000, 300000, CFG_Q, CFG_T),
-    Sub("fr_unary", unary_cases("fr"), check_unary, 16000, 300000, CFG_Q, CFG_T),
-    Sub("bytes", bytes_cases(), check_bytes, 20000, 400000, CFG_Q, CFG_T),
+    Sub("fq_binop", binop_cases("fq"), check_binop, 60000, 500000, CFG_Q, CFG_T),
+    Sub("fr_binop", binop_cases("fr"), check_binop, 40000, 270000, CFG_Q, CFG_T),
+    Sub("fq_mred", mred_cases("fq"), check_mred, 20000, 130000, CFG_Q, CFG_T),
+    Sub("fr_mred", mred_cases("fr"), check_mred, 10000, 70000, CFG_Q, CFG_T),
+    Sub("fq_unary", unary_cases("fq"), check_unary, 16000, 100000, CFG_Q, CFG_T),
+    Sub("fr_unary", unary_cases("fr"), check_unary, 16000, 100000, CFG_Q, CFG_T),
+    Sub("bytes", bytes_cases(), check_bytes, 20000, 130000, CFG_Q, CFG_T),
 ]
